@@ -21,6 +21,16 @@ Section Inv.
   Variable dec_binds : blob -> option (list (N * N)).
   Variable enc_res : list (N * N) -> blob.
   Variable dec_res : blob -> option (list (N * N)).
+  Variable enc_tz : N -> blob.
+  Variable dec_tz : blob -> option N.
+  Variable enc_tts : N * N -> blob.
+  Variable dec_tts : blob -> option (N * N).
+  Variable enc_icd : list (N * N) -> blob.
+  Variable dec_icd : blob -> option (list (N * N)).
+  Variable enc_ota : list (N * N) -> blob.
+  Variable dec_ota : blob -> option (list (N * N)).
+  Variable enc_scenes : list (N * N) -> blob.
+  Variable dec_scenes : blob -> option (list (N * N)).
 
   (** the codecs read back what they wrote (checked on the real codecs by the harness) *)
   Hypothesis rt_fab : forall i f, dec_fab (enc_fab i f) = Some (i, f).
@@ -29,12 +39,19 @@ Section Inv.
   Hypothesis rt_labels : forall v, dec_labels (enc_labels v) = Some v.
   Hypothesis rt_binds : forall v, dec_binds (enc_binds v) = Some v.
   Hypothesis rt_res : forall v, dec_res (enc_res v) = Some v.
+  Hypothesis rt_tz : forall v, dec_tz (enc_tz v) = Some v.
+  Hypothesis rt_tts : forall v, dec_tts (enc_tts v) = Some v.
+  Hypothesis rt_icd : forall v, dec_icd (enc_icd v) = Some v.
+  Hypothesis rt_ota : forall v, dec_ota (enc_ota v) = Some v.
+  Hypothesis rt_scenes : forall v, dec_scenes (enc_scenes v) = Some v.
 
   Notation state := (state blob).
   Notation kv := (kv blob).
   Notation step := (step blob enc_fab dec_fab enc_basic dec_basic enc_nets dec_nets enc_labels dec_labels
-                         enc_binds dec_binds enc_res dec_res true).
-  Notation startup := (startup blob dec_fab dec_basic dec_nets dec_labels dec_binds enc_res dec_res).
+                         enc_binds dec_binds enc_res dec_res enc_tz dec_tz enc_tts dec_tts enc_icd dec_icd
+                         enc_ota dec_ota enc_scenes dec_scenes true).
+  Notation startup := (startup blob dec_fab dec_basic dec_nets dec_labels dec_binds enc_res dec_res
+                               dec_tz dec_tts dec_icd dec_ota dec_scenes).
   Notation load_fabs := (load_fabs blob dec_fab).
   Notation load_resump := (load_resump blob enc_res dec_res).
   Notation replay := (replay blob).
@@ -61,6 +78,14 @@ Section Inv.
     i_labels : cell_sync (aget (s_kv st) K_LABELS) enc_labels 0 (r_labels (s_ram st));
     i_binds : cell_sync (aget (s_kv st) K_BIND) enc_binds [] (r_binds (s_ram st));
     i_res : cell_dec (aget (s_kv st) K_RESUMP) enc_res;
+    i_tz : cell_sync (aget (s_kv st) K_TZ) enc_tz 0 (r_tz (s_ram st));
+    i_tts : match r_tts (s_ram st) with
+            | None => aget (s_kv st) K_TTS = None
+            | Some x => aget (s_kv st) K_TTS = Some (enc_tts x)
+            end;
+    i_icd : cell_sync (aget (s_kv st) K_ICD_CLIENTS) enc_icd [] (r_icd (s_ram st));
+    i_ota : cell_sync (aget (s_kv st) K_OTA) enc_ota [] (r_ota (s_ram st));
+    i_scenes : cell_sync (aget (s_kv st) K_SCENES) enc_scenes [] (r_scenes (s_ram st));
     (* a PASE session is on fabric 0 unless this fail-safe period's AddNOC upgraded it *)
     i_pase : forall pf, s_pase st = Some pf -> pf <> 0 -> s_fs st = Armed pf 2
   }.
@@ -219,7 +244,9 @@ Section Inv.
       r_binds r = r_binds (s_ram st) /\
       (r_resump r, ops) = load_resump (s_kv st) (r_fabs r) /\
       cell_sync (aget (s_kv st) K_NETS) enc_nets nets_reset (r_nets r) /\
-      akeys (r_fabs r) = filter (fun i => amem (s_kv st) (fabric_key i)) fab_indices.
+      akeys (r_fabs r) = filter (fun i => amem (s_kv st) (fabric_key i)) fab_indices /\
+      (r_tz r = r_tz (s_ram st) /\ r_tts r = r_tts (s_ram st) /\ r_icd r = r_icd (s_ram st) /\
+       r_ota r = r_ota (s_ram st) /\ r_scenes r = r_scenes (s_ram st)).
   Proof.
     intros st HI.
     destruct (load_fabs_inv st HI) as [l [Hl [Hget Hkeys]]].
@@ -227,14 +254,22 @@ Section Inv.
     pose proof (load_opt_sync _ (s_kv st) K_LABELS enc_labels dec_labels 0 _ rt_labels (i_labels st HI)) as Hlb.
     pose proof (load_opt_sync _ (s_kv st) K_BIND enc_binds dec_binds [] _ rt_binds (i_binds st HI)) as Hbd.
     destruct (load_opt_dec _ (s_kv st) K_NETS enc_nets dec_nets nets_reset rt_nets (i_nets_dec st HI)) as [ns Hns].
+    pose proof (load_opt_sync _ (s_kv st) K_TZ enc_tz dec_tz 0 _ rt_tz (i_tz st HI)) as Htz.
+    pose proof (load_opt_sync _ (s_kv st) K_ICD_CLIENTS enc_icd dec_icd [] _ rt_icd (i_icd st HI)) as Hic.
+    pose proof (load_opt_sync _ (s_kv st) K_OTA enc_ota dec_ota [] _ rt_ota (i_ota st HI)) as Hot.
+    pose proof (load_opt_sync _ (s_kv st) K_SCENES enc_scenes dec_scenes [] _ rt_scenes (i_scenes st HI)) as Hsc.
+    assert (Htt : (match aget (s_kv st) K_TTS with None => Some None
+                   | Some b => option_map Some (dec_tts b) end) = Some (r_tts (s_ram st))).
+    { pose proof (i_tts st HI) as H. destruct (r_tts (s_ram st)) as [x|]; rewrite H; [rewrite rt_tts|]; reflexivity. }
     unfold Persist.startup. rewrite Hl, Hb.
     destruct (load_resump (s_kv st) l) as [res ops] eqn:Er.
-    rewrite Hns, Hbd, Hlb.
-    exists (mkRam l (r_basic (s_ram st)) ns (r_labels (s_ram st)) (r_binds (s_ram st)) res), ops.
-    split; [reflexivity|]. cbn [r_fabs r_basic r_nets r_labels r_binds r_resump].
+    rewrite Hns, Hbd, Hlb, Hsc, Hot, Htz, Hic, Htt.
+    exists (mkRam l (r_basic (s_ram st)) ns (r_labels (s_ram st)) (r_binds (s_ram st)) res
+                  (r_tz (s_ram st)) (r_tts (s_ram st)) (r_icd (s_ram st)) (r_ota (s_ram st)) (r_scenes (s_ram st))), ops.
+    split; [reflexivity|]. cbn [r_fabs r_basic r_nets r_labels r_binds r_resump r_tz r_tts r_icd r_ota r_scenes].
     assert (Hstored : forall i, 1 <= i <= 255 -> aget l i = stored_fab (s_kv st) i).
     { intros i Hi. rewrite Hget. apply existsb_fab_indices in Hi. rewrite Hi. reflexivity. }
-    split; [|split; [exact Hstored|split; [reflexivity|split; [|split; [reflexivity|split; [reflexivity|split; [symmetry; exact Er|split; [|exact Hkeys]]]]]]]].
+    split; [|split; [exact Hstored|split; [reflexivity|split; [|split; [reflexivity|split; [reflexivity|split; [symmetry; exact Er|split; [|split; [exact Hkeys|repeat split]]]]]]]]].
     - intros i Hna.
       destruct (existsb (N.eqb i) fab_indices) eqn:Ex.
       + apply existsb_fab_indices in Ex. rewrite (Hstored i Ex). unfold stored_fab.
@@ -256,15 +291,16 @@ Section Inv.
 
   (** ** Preservation *)
 
-  Ltac keys := unfold K_BASIC, K_NETS, K_LABELS, K_BIND, K_RESUMP, fabric_key, FABRIC_KEYS_START in *; lia.
+  Ltac keys := unfold K_BASIC, K_NETS, K_LABELS, K_BIND, K_RESUMP, K_TZ, K_TTS, K_ICD_CLIENTS, K_OTA, K_SCENES,
+                      fabric_key, FABRIC_KEYS_START in *; lia.
   Ltac kvs := repeat first
     [ rewrite aget_aset_same | rewrite aget_adel_same
     | rewrite aget_aset_other by keys | rewrite aget_adel_other by keys ].
 
   Ltac sstate := cbv zeta;
     cbn [fst snd Persist.commit Persist.refuse Persist.kvlog Persist.replay fold_left kv_apply app
-         with_ram set_fabs set_basic set_nets set_labels set_binds set_resump
-         s_ram s_fs s_kv s_pase r_fabs r_basic r_nets r_labels r_binds r_resump].
+         with_ram set_fabs set_basic set_nets set_labels set_binds set_resump set_tz set_tts set_icd set_ota set_scenes
+         s_ram s_fs s_kv s_pase r_fabs r_basic r_nets r_labels r_binds r_resump r_tz r_tts r_icd r_ota r_scenes].
 
   Notation fabric_write := (fabric_write blob enc_fab).
   Notation commit := (commit blob).
@@ -282,7 +318,7 @@ Section Inv.
     intros st f upd staged HI Hst. unfold Persist.fabric_write.
     destruct (aget (r_fabs (s_ram st)) f) as [fb|] eqn:Ef; [|exact HI].
     assert (Hr : 1 <= f <= 254) by (apply (i_range st HI); eapply aget_In_keys; eassumption).
-    destruct HI as [Hnd Hrg Hcap Hfab Hbas Hnets Hnd2 Hlab Hbind Hres Hpase].
+    destruct HI as [Hnd Hrg Hcap Hfab Hbas Hnets Hnd2 Hlab Hbind Hres Htz Htts Hicd Hota Hsc Hpase].
     destruct staged; sstate.
     - (* staged: memory only *)
       constructor; sstate; try assumption.
@@ -320,15 +356,23 @@ Section Inv.
     cell_sync (aget (s_kv st') K_LABELS) enc_labels 0 (r_labels (s_ram st')) ->
     cell_sync (aget (s_kv st') K_BIND) enc_binds [] (r_binds (s_ram st')) ->
     cell_dec (aget (s_kv st') K_RESUMP) enc_res ->
+    cell_sync (aget (s_kv st') K_TZ) enc_tz 0 (r_tz (s_ram st')) ->
+    match r_tts (s_ram st') with
+    | None => aget (s_kv st') K_TTS = None
+    | Some x => aget (s_kv st') K_TTS = Some (enc_tts x)
+    end ->
+    cell_sync (aget (s_kv st') K_ICD_CLIENTS) enc_icd [] (r_icd (s_ram st')) ->
+    cell_sync (aget (s_kv st') K_OTA) enc_ota [] (r_ota (s_ram st')) ->
+    cell_sync (aget (s_kv st') K_SCENES) enc_scenes [] (r_scenes (s_ram st')) ->
     Inv st'.
   Proof.
-    intros st st' HI Ef Efs Ep Hkv Hb Hn Hnd Hl Hbd Hr.
-    destruct HI as [Hnd0 Hrg Hcap Hfab Hbas Hnets Hnd2 Hlab Hbind Hres Hpase].
+    intros st st' HI Ef Efs Ep Hkv Hb Hn Hnd Hl Hbd Hr Hz Ht Hi Ho Hs.
+    destruct HI as [Hnd0 Hrg Hcap Hfab Hbas Hnets Hnd2 Hlab Hbind Hres Htz Htts Hicd Hota Hsc Hpase].
     constructor; try assumption.
     - rewrite Ef; assumption.
     - rewrite Ef; assumption.
     - rewrite Ef; assumption.
-    - intros i Hi. rewrite (Hkv i Hi), Ef, Efs. apply Hfab; assumption.
+    - intros i Hi0. rewrite (Hkv i Hi0), Ef, Efs. apply Hfab; assumption.
     - rewrite Ep, Efs. assumption.
   Qed.
 
@@ -340,68 +384,121 @@ Section Inv.
   Lemma dec_some : forall A (enc : A -> blob) v, cell_dec (Some (enc v)) enc.
   Proof. intros. right. eexists. reflexivity. Qed.
 
+  (** one of the always-synchronised singleton blobs is rewritten; [sel k] says which cell it is *)
+  Definition single_keys : list N :=
+    [K_BASIC; K_LABELS; K_BIND; K_RESUMP; K_TZ; K_ICD_CLIENTS; K_OTA; K_SCENES].
+
   Lemma inv_singletons : forall st (r' : ram) (k : N) (b : blob),
     Inv st ->
     r_fabs r' = r_fabs (s_ram st) ->
-    (k = K_BASIC \/ k = K_LABELS \/ k = K_BIND \/ k = K_RESUMP) ->
+    In k single_keys ->
     (k = K_BASIC -> b = enc_basic (r_basic r')) -> (k <> K_BASIC -> r_basic r' = r_basic (s_ram st)) ->
     r_nets r' = r_nets (s_ram st) ->
     (k = K_LABELS -> b = enc_labels (r_labels r')) -> (k <> K_LABELS -> r_labels r' = r_labels (s_ram st)) ->
     (k = K_BIND -> b = enc_binds (r_binds r')) -> (k <> K_BIND -> r_binds r' = r_binds (s_ram st)) ->
     (k = K_RESUMP -> exists l, b = enc_res l) ->
+    (k = K_TZ -> b = enc_tz (r_tz r')) -> (k <> K_TZ -> r_tz r' = r_tz (s_ram st)) ->
+    r_tts r' = r_tts (s_ram st) ->
+    (k = K_ICD_CLIENTS -> b = enc_icd (r_icd r')) -> (k <> K_ICD_CLIENTS -> r_icd r' = r_icd (s_ram st)) ->
+    (k = K_OTA -> b = enc_ota (r_ota r')) -> (k <> K_OTA -> r_ota r' = r_ota (s_ram st)) ->
+    (k = K_SCENES -> b = enc_scenes (r_scenes r')) -> (k <> K_SCENES -> r_scenes r' = r_scenes (s_ram st)) ->
     Inv (mkState blob r' (s_fs st) (s_pase st) (aset (s_kv st) k b)).
   Proof.
-    intros st r' k b HI Ef Hk Hb1 Hb2 Hn Hl1 Hl2 Hd1 Hd2 Hr.
-    assert (Hkeys : K_BASIC <> K_LABELS /\ K_BASIC <> K_BIND /\ K_BASIC <> K_RESUMP /\ K_LABELS <> K_BIND /\
-                    K_LABELS <> K_RESUMP /\ K_BIND <> K_RESUMP /\ K_NETS <> K_BASIC /\ K_NETS <> K_LABELS /\
-                    K_NETS <> K_BIND /\ K_NETS <> K_RESUMP) by (repeat split; keys).
+    intros st r' k b HI Ef Hk Hb1 Hb2 Hn Hl1 Hl2 Hd1 Hd2 Hr Hz1 Hz2 Ht Hi1 Hi2 Ho1 Ho2 Hs1 Hs2.
+    assert (Hnotfab : forall i, 1 <= i <= 255 -> i <> k).
+    { intros i Hi E. subst i. cbn in Hk. keys. }
+    assert (Hnn : K_NETS <> k) by (cbn in Hk; keys).
+    assert (Hnt : K_TTS <> k) by (cbn in Hk; keys).
+    (* a synchronised cell: rewritten if it is [k], untouched otherwise *)
+    assert (Hcell : forall A (k0 : N) (enc : A -> blob) dflt (v' v : A),
+              (k = k0 -> b = enc v') -> (k <> k0 -> v' = v) ->
+              cell_sync (aget (s_kv st) k0) enc dflt v ->
+              cell_sync (aget (aset (s_kv st) k b) k0) enc dflt v').
+    { intros A k0 enc dflt v' v H1 H2 H3. destruct (N.eq_dec k k0) as [E|E].
+      - subst k0. rewrite aget_aset_same. right. f_equal. apply H1. reflexivity.
+      - rewrite aget_aset_other by congruence. rewrite (H2 E). exact H3. }
     eapply inv_update; [exact HI|..]; sstate; try reflexivity; try assumption.
-    - intros i Hi. rewrite aget_aset_other; [reflexivity|]. destruct Hk as [E|[E|[E|E]]]; subst k; keys.
-    - destruct (N.eq_dec k K_BASIC) as [E|E].
-      + subst k. rewrite aget_aset_same. right. f_equal. apply Hb1. reflexivity.
-      + rewrite aget_aset_other by congruence. rewrite (Hb2 E). apply (i_basic st HI).
-    - intros Hi. rewrite aget_aset_other by (destruct Hk as [E|[E|[E|E]]]; subst k; keys).
-      rewrite Hn. apply (i_nets st HI Hi).
-    - rewrite aget_aset_other by (destruct Hk as [E|[E|[E|E]]]; subst k; keys). apply (i_nets_dec st HI).
-    - destruct (N.eq_dec k K_LABELS) as [E|E].
-      + subst k. rewrite aget_aset_same. right. f_equal. apply Hl1. reflexivity.
-      + rewrite aget_aset_other by congruence. rewrite (Hl2 E). apply (i_labels st HI).
-    - destruct (N.eq_dec k K_BIND) as [E|E].
-      + subst k. rewrite aget_aset_same. right. f_equal. apply Hd1. reflexivity.
-      + rewrite aget_aset_other by congruence. rewrite (Hd2 E). apply (i_binds st HI).
+    - intros i Hi. rewrite aget_aset_other; [reflexivity|]. apply Hnotfab. assumption.
+    - eapply Hcell; [eassumption|eassumption|apply (i_basic st HI)].
+    - intros Hi. rewrite aget_aset_other by assumption. rewrite Hn. apply (i_nets st HI Hi).
+    - rewrite aget_aset_other by assumption. apply (i_nets_dec st HI).
+    - eapply Hcell; [eassumption|eassumption|apply (i_labels st HI)].
+    - eapply Hcell; [eassumption|eassumption|apply (i_binds st HI)].
     - destruct (N.eq_dec k K_RESUMP) as [E|E].
       + subst k. rewrite aget_aset_same. destruct (Hr eq_refl) as [l El]. subst b. apply dec_some.
       + rewrite aget_aset_other by congruence. apply (i_res st HI).
+    - eapply Hcell; [eassumption|eassumption|apply (i_tz st HI)].
+    - rewrite Ht, aget_aset_other by assumption. apply (i_tts st HI).
+    - eapply Hcell; [eassumption|eassumption|apply (i_icd st HI)].
+    - eapply Hcell; [eassumption|eassumption|apply (i_ota st HI)].
+    - eapply Hcell; [eassumption|eassumption|apply (i_scenes st HI)].
   Qed.
 
-  Notation fabric_removed := (fabric_removed blob enc_binds enc_res).
+  Notation fabric_removed := (fabric_removed blob enc_binds enc_res enc_icd enc_ota enc_scenes).
+
+  Ltac single := sstate; try reflexivity; try (intros; keys); try tauto; try (cbn; tauto).
 
   Lemma inv_fabric_removed : forall st g, Inv st ->
     Inv (mkState blob (fst (fabric_removed (s_ram st) g)) (s_fs st) (s_pase st)
                  (replay (s_kv st) (kvlog (snd (fabric_removed (s_ram st) g))))).
   Proof.
-    intros st g HI. unfold Persist.fabric_removed.
+    intros st g HI. unfold Persist.fabric_removed, Persist.drop_for.
     set (res' := filter (fun x => negb (fst x =? g)) (r_resump (s_ram st))).
-    pose proof (inv_singletons st (set_resump (s_ram st) res') K_RESUMP (enc_res res') HI) as H1.
+    (* the resumption cache *)
     assert (HI1 : Inv (mkState blob (set_resump (s_ram st) res') (s_fs st) (s_pase st)
                                (aset (s_kv st) K_RESUMP (enc_res res')))).
-    { apply H1; sstate; try reflexivity; try (intros; keys); try tauto. intros _. eexists; reflexivity. }
-    destruct (amem (r_binds (s_ram st)) g); sstate.
-    - pose proof (inv_singletons _ (set_binds (set_resump (s_ram st) res') (adel (r_binds (s_ram st)) g))
-                    K_BIND (enc_binds (adel (r_binds (s_ram st)) g)) HI1) as H2.
-      apply H2; sstate; try reflexivity; try (intros; keys); try tauto.
-    - exact HI1.
+    { apply inv_singletons; single. intros _. eexists; reflexivity. }
+    set (st1 := mkState blob (set_resump (s_ram st) res') (s_fs st) (s_pase st)
+                        (aset (s_kv st) K_RESUMP (enc_res res'))) in *.
+    (* scenes *)
+    set (sc := if amem (r_scenes (s_ram st)) g then adel (r_scenes (s_ram st)) g else r_scenes (s_ram st)).
+    set (kv2 := if amem (r_scenes (s_ram st)) g then aset (s_kv st1) K_SCENES (enc_scenes sc) else s_kv st1).
+    assert (HI2 : Inv (mkState blob (set_scenes (s_ram st1) sc) (s_fs st) (s_pase st) kv2)).
+    { unfold sc, kv2. destruct (amem (r_scenes (s_ram st)) g).
+      - apply (inv_singletons st1); single; assumption.
+      - replace (set_scenes (s_ram st1) (r_scenes (s_ram st))) with (s_ram st1) by reflexivity. exact HI1. }
+    set (st2 := mkState blob (set_scenes (s_ram st1) sc) (s_fs st) (s_pase st) kv2) in *.
+    (* OTA providers *)
+    set (ot := if amem (r_ota (s_ram st)) g then adel (r_ota (s_ram st)) g else r_ota (s_ram st)).
+    set (kv3 := if amem (r_ota (s_ram st)) g then aset kv2 K_OTA (enc_ota ot) else kv2).
+    assert (HI3 : Inv (mkState blob (set_ota (s_ram st2) ot) (s_fs st) (s_pase st) kv3)).
+    { unfold ot, kv3. destruct (amem (r_ota (s_ram st)) g).
+      - apply (inv_singletons st2); single; assumption.
+      - replace (set_ota (s_ram st2) (r_ota (s_ram st))) with (s_ram st2) by reflexivity. exact HI2. }
+    set (st3 := mkState blob (set_ota (s_ram st2) ot) (s_fs st) (s_pase st) kv3) in *.
+    (* ICD registrations *)
+    set (ic := if amem (r_icd (s_ram st)) g then adel (r_icd (s_ram st)) g else r_icd (s_ram st)).
+    set (kv4 := if amem (r_icd (s_ram st)) g then aset kv3 K_ICD_CLIENTS (enc_icd ic) else kv3).
+    assert (HI4 : Inv (mkState blob (set_icd (s_ram st3) ic) (s_fs st) (s_pase st) kv4)).
+    { unfold ic, kv4. destruct (amem (r_icd (s_ram st)) g).
+      - apply (inv_singletons st3); single; assumption.
+      - replace (set_icd (s_ram st3) (r_icd (s_ram st))) with (s_ram st3) by reflexivity. exact HI3. }
+    set (st4 := mkState blob (set_icd (s_ram st3) ic) (s_fs st) (s_pase st) kv4) in *.
+    (* bindings *)
+    set (bd := if amem (r_binds (s_ram st)) g then adel (r_binds (s_ram st)) g else r_binds (s_ram st)).
+    set (kv5 := if amem (r_binds (s_ram st)) g then aset kv4 K_BIND (enc_binds bd) else kv4).
+    assert (HI5 : Inv (mkState blob (set_binds (s_ram st4) bd) (s_fs st) (s_pase st) kv5)).
+    { unfold bd, kv5. destruct (amem (r_binds (s_ram st)) g).
+      - apply (inv_singletons st4); single; assumption.
+      - replace (set_binds (s_ram st4) (r_binds (s_ram st))) with (s_ram st4) by reflexivity. exact HI4. }
+    (* the function computes exactly this state *)
+    unfold sc, kv2, ot, kv3, ic, kv4, bd, kv5, st4, st3, st2, st1 in HI5. clear -HI5.
+    destruct (amem (r_scenes (s_ram st)) g), (amem (r_ota (s_ram st)) g), (amem (r_icd (s_ram st)) g),
+             (amem (r_binds (s_ram st)) g); sstate; sstate; exact HI5.
   Qed.
 
   Lemma fabric_removed_fabs : forall r g, r_fabs (fst (fabric_removed r g)) = r_fabs r.
-  Proof. intros r g. unfold Persist.fabric_removed. destruct (amem (r_binds r) g); reflexivity. Qed.
+  Proof.
+    intros r g. unfold Persist.fabric_removed, Persist.drop_for.
+    destruct (amem (r_scenes r) g), (amem (r_ota r) g), (amem (r_icd r) g), (amem (r_binds r) g); reflexivity.
+  Qed.
 
   (** the fabric's key and table entry go together *)
   Lemma inv_drop_fabric : forall st g, Inv st -> 1 <= g <= 255 ->
     Inv (mkState blob (set_fabs (s_ram st) (adel (r_fabs (s_ram st)) g)) (s_fs st) (s_pase st) (adel (s_kv st) g)).
   Proof.
     intros st g HI Hg.
-    destruct HI as [Hnd0 Hrg Hcap Hfab Hbas Hnets Hnd2 Hlab Hbind Hres Hpase].
+    destruct HI as [Hnd0 Hrg Hcap Hfab Hbas Hnets Hnd2 Hlab Hbind Hres Htz Htts Hicd Hota Hsc Hpase].
     constructor; sstate; kvs; try assumption.
     - apply nodup_adel; assumption.
     - intros i Hi. apply akeys_adel in Hi. apply Hrg. tauto.
@@ -448,6 +545,11 @@ Section Inv.
     - left. split; reflexivity.
     - left. split; reflexivity.
     - left. reflexivity.
+    - left. split; reflexivity.
+    - reflexivity.
+    - left. split; reflexivity.
+    - left. split; reflexivity.
+    - left. split; reflexivity.
     - apply (i_pase st HI).
   Qed.
 
@@ -469,7 +571,7 @@ Section Inv.
     Inv (mkState blob r Idle None (replay (s_kv st) ops)).
   Proof.
     intros st r ops HI Hs.
-    destruct (startup_sync st HI) as [r0 [ops0 [Hs0 [_ [Hst [Hb [_ [Hl [Hbd [Hres [Hn Hk]]]]]]]]]]].
+    destruct (startup_sync st HI) as [r0 [ops0 [Hs0 [_ [Hst [Hb [_ [Hl [Hbd [Hres [Hn [Hk [Hz [Ht [Hic [Ho Hsc]]]]]]]]]]]]]]]].
     rewrite Hs in Hs0. injection Hs0 as <- <-.
     assert (Hops : ops = snd (load_resump (s_kv st) (r_fabs r))) by (rewrite <- Hres; reflexivity).
     destruct (load_resump_ops (s_kv st) (r_fabs r)) as [Hother Hdec]. rewrite <- Hops in Hother, Hdec.
@@ -495,6 +597,11 @@ Section Inv.
     - rewrite Hl. apply (i_labels st HI).
     - rewrite Hbd. apply (i_binds st HI).
     - apply Hdec. apply (i_res st HI).
+    - rewrite Hz. apply (i_tz st HI).
+    - rewrite Ht. apply (i_tts st HI).
+    - rewrite Hic. apply (i_icd st HI).
+    - rewrite Ho. apply (i_ota st HI).
+    - rewrite Hsc. apply (i_scenes st HI).
     - intros pf H. discriminate.
   Qed.
 
@@ -504,7 +611,7 @@ Section Inv.
     Inv (mkState blob (s_ram st) (Armed c 0) (s_pase st) (s_kv st)).
   Proof.
     intros st c HI Hidle Hp.
-    destruct HI as [Hnd0 Hrg Hcap Hfab Hbas Hnets Hnd2 Hlab Hbind Hres Hpase].
+    destruct HI as [Hnd0 Hrg Hcap Hfab Hbas Hnets Hnd2 Hlab Hbind Hres Htz Htts Hicd Hota Hsc Hpase].
     constructor; sstate; try assumption.
     - intros i Hi. specialize (Hfab i Hi). rewrite Hidle in Hfab. cbn [armed_for] in Hfab.
       destruct (aget (s_kv st) i).
@@ -544,30 +651,65 @@ Section Inv.
       apply inv_fabric_write; [assumption|]. apply armed_for_pending.
     - (* OBind *)
       destruct (caller_fab st c) as [f|]; [|exact HI]. destruct (f =? 0); [exact HI|]. sstate.
-      apply inv_singletons; sstate; try reflexivity; try (intros; keys); try tauto; assumption.
+      apply inv_singletons; single; assumption.
     - (* OULabel *)
       destruct (caller_fab st c) as [f|]; [|exact HI]. sstate.
-      apply inv_singletons; sstate; try reflexivity; try (intros; keys); try tauto; assumption.
+      apply inv_singletons; single; assumption.
     - (* ONodeLabel *)
       destruct (caller_fab st c) as [f|]; [|exact HI]. sstate.
-      apply inv_singletons; sstate; try reflexivity; try (intros; keys); try tauto; assumption.
+      apply inv_singletons; single; assumption.
     - (* OLocation *)
       destruct (caller_fab st c) as [f|]; [|exact HI]. sstate.
-      apply inv_singletons; sstate; try reflexivity; try (intros; keys); try tauto; assumption.
+      apply inv_singletons; single; assumption.
     - (* OReg *)
       destruct (caller_fab st c) as [f|]; [|exact HI]. sstate.
-      apply inv_singletons; sstate; try reflexivity; try (intros; keys); try tauto; assumption.
+      apply inv_singletons; single; assumption.
+    - (* OTz *)
+      destruct (caller_fab st c) as [f|]; [|exact HI]. sstate.
+      apply inv_singletons; single; assumption.
+    - (* OTts *)
+      destruct (caller_fab st c) as [f|]; [|exact HI]. destruct (f =? 0); [exact HI|].
+      destruct (v =? 0).
+      + destruct (r_tts (s_ram st)) as [x|] eqn:Et; [|exact HI]. sstate.
+        eapply inv_update; [exact HI|..]; sstate; kvs; try reflexivity; try apply HI.
+        intros i Hi. kvs. reflexivity.
+      + destruct (match r_tts (s_ram st) with Some (f0, v0) => (f0 =? f) && (v0 =? v) | None => false end); [exact HI|].
+        sstate. eapply inv_update; [exact HI|..]; sstate; kvs; try reflexivity; try apply HI.
+        intros i Hi. kvs. reflexivity.
+    - (* OIcd *)
+      destruct (caller_fab st c) as [f|]; [|exact HI]. destruct (f =? 0); [exact HI|].
+      destruct (v =? 0).
+      + destruct (amem (r_icd (s_ram st)) f); [|exact HI]. sstate. apply inv_singletons; single; assumption.
+      + sstate. apply inv_singletons; single; assumption.
+    - (* OOta *)
+      destruct (caller_fab st c) as [f|]; [|exact HI]. destruct (f =? 0); [exact HI|]. sstate.
+      apply inv_singletons; single; assumption.
+    - (* OScene *)
+      destruct (caller_fab st c) as [f|]; [|exact HI]. destruct (f =? 0); [exact HI|].
+      destruct (v =? 0).
+      + destruct (amem (r_scenes (s_ram st)) f); [|exact HI]. sstate. apply inv_singletons; single; assumption.
+      + sstate. apply inv_singletons; single; assumption.
     - (* ORemove *)
       destruct (caller_fab st c) as [f|]; [|exact HI].
       destruct (amem (r_fabs (s_ram st)) g) eqn:Eg; [|exact HI].
       assert (Hg : 1 <= g <= 255).
       { apply amem_true in Eg. destruct Eg as [v Ev]. apply aget_In_keys in Ev. apply (i_range st HI) in Ev. lia. }
-      pose proof (inv_fabric_removed _ g (inv_drop_fabric st g HI Hg)) as H.
+      pose proof (inv_drop_fabric st g HI Hg) as HI0.
+      set (tts_of_g := match r_tts (s_ram st) with Some (f0, _) => f0 =? g | None => false end).
+      set (r1 := set_fabs (s_ram st) (adel (r_fabs (s_ram st)) g)) in *.
+      (* the trusted time source of the fabric, if it is its *)
+      assert (HI1 : Inv (mkState blob (if tts_of_g then set_tts r1 None else r1) (s_fs st) (s_pase st)
+                                 (replay (adel (s_kv st) g) (kvlog (if tts_of_g then [EKv (KRemove K_TTS)] else []))))).
+      { destruct tts_of_g; sstate; [|exact HI0].
+        eapply inv_update; [exact HI0|..]; sstate; kvs; try reflexivity; try apply HI0.
+        all: try (unfold r1; sstate; apply HI).
+        intros i Hi. kvs. reflexivity. }
+      pose proof (inv_fabric_removed _ g HI1) as H.
       cbn [s_ram s_fs s_pase s_kv] in H.
-      destruct (fabric_removed (set_fabs (s_ram st) (adel (r_fabs (s_ram st)) g)) g) as [r2 evs] eqn:Er.
+      destruct (fabric_removed (if tts_of_g then set_tts r1 None else r1) g) as [r2 evs] eqn:Er.
       cbn [fst snd] in H. unfold Persist.commit. cbn [fst with_ram s_ram s_fs s_pase s_kv].
-      rewrite !kvlog_app. cbn [Persist.kvlog]. rewrite app_nil_r, replay_app.
-      cbn [Persist.replay fold_left kv_apply]. rewrite fabric_key_id. exact H.
+      rewrite !kvlog_app. cbn [Persist.kvlog]. rewrite app_nil_r, !replay_app.
+      cbn [Persist.replay fold_left kv_apply] in *. rewrite fabric_key_id. exact H.
     - (* OArm *)
       destruct (caller_fab st c) as [cf|]; [|exact HI].
       destruct (s_fs st) as [|ctx stg] eqn:Efs.
@@ -583,7 +725,7 @@ Section Inv.
       { destruct (N.eq_dec pf 0) as [E|E]; [assumption|]. pose proof (i_pase st HI pf Ep E) as H. congruence. }
       subst pf.
       assert (Hstage : forall stg', Inv (mkState blob (s_ram st) (Armed 0 stg') (Some 0) (s_kv st))).
-      { intros stg'. destruct HI as [Hnd0 Hrg Hcap Hfab Hbas Hnets Hnd2 Hlab Hbind Hres Hpase].
+      { intros stg'. destruct HI as [Hnd0 Hrg Hcap Hfab Hbas Hnets Hnd2 Hlab Hbind Hres Htz Htts Hicd Hota Hsc Hpase].
         constructor; sstate; try assumption.
         - intros i Hi. specialize (Hfab i Hi). rewrite Efs in Hfab. exact Hfab.
         - discriminate.
@@ -591,7 +733,7 @@ Section Inv.
       destruct (Nat.leb_spec MAX_FABRICS (length (r_fabs (s_ram st)))) as [Hfull|Hroom]; [sstate; apply Hstage|].
       destruct (new_index (r_fabs (s_ram st))) as [idx|] eqn:En; [|sstate; apply Hstage].
       destruct (new_index_spec _ _ En) as [Hidx Hfree]. sstate.
-      destruct HI as [Hnd0 Hrg Hcap Hfab Hbas Hnets Hnd2 Hlab Hbind Hres Hpase].
+      destruct HI as [Hnd0 Hrg Hcap Hfab Hbas Hnets Hnd2 Hlab Hbind Hres Htz Htts Hicd Hota Hsc Hpase].
       constructor; sstate; try assumption.
       + apply nodup_aset; assumption.
       + intros i Hi. apply akeys_aset in Hi. destruct Hi as [[Hi _]|Hi]; [apply Hrg; assumption|subst; assumption].
@@ -611,7 +753,7 @@ Section Inv.
       destruct stg as [|p]; [|exact HI].
       destruct (N.eqb_spec ctx f) as [Ec|Ec]; [|exact HI]. subst ctx. sstate.
       assert (Hr : 1 <= f <= 254) by (apply (i_range st HI); eapply aget_In_keys; eassumption).
-      destruct HI as [Hnd0 Hrg Hcap Hfab Hbas Hnets Hnd2 Hlab Hbind Hres Hpase].
+      destruct HI as [Hnd0 Hrg Hcap Hfab Hbas Hnets Hnd2 Hlab Hbind Hres Htz Htts Hicd Hota Hsc Hpase].
       constructor; sstate; try assumption.
       + apply nodup_aset; assumption.
       + intros i Hi. apply akeys_aset in Hi. destruct Hi as [[Hi _]|Hi]; [apply Hrg; assumption|subst; assumption].
@@ -630,7 +772,7 @@ Section Inv.
       destruct (s_fs st) as [|ctx stg] eqn:Efs; [exact HI|].
       destruct (ctx =? cf); [|exact HI].
       destruct (net_add (r_nets (s_ram st)) k) as [n'|]; [|exact HI]. sstate.
-      destruct HI as [Hnd0 Hrg Hcap Hfab Hbas Hnets Hnd2 Hlab Hbind Hres Hpase].
+      destruct HI as [Hnd0 Hrg Hcap Hfab Hbas Hnets Hnd2 Hlab Hbind Hres Htz Htts Hicd Hota Hsc Hpase].
       constructor; sstate; try assumption. rewrite Efs. discriminate.
     - (* OComplete *)
       destruct (aget (r_fabs (s_ram st)) f) as [fb|] eqn:Ef; [|exact HI].
@@ -638,7 +780,7 @@ Section Inv.
       destruct (N.eqb_spec ctx f) as [Ec|Ec]; cbn [andb]; [|exact HI]. subst ctx.
       destruct (f =? 0); cbn [negb]; [exact HI|]. sstate. rewrite fabric_key_id.
       assert (Hr : 1 <= f <= 254) by (apply (i_range st HI); eapply aget_In_keys; eassumption).
-      destruct HI as [Hnd0 Hrg Hcap Hfab Hbas Hnets Hnd2 Hlab Hbind Hres Hpase].
+      destruct HI as [Hnd0 Hrg Hcap Hfab Hbas Hnets Hnd2 Hlab Hbind Hres Htz Htts Hicd Hota Hsc Hpase].
       constructor; sstate; kvs; try assumption.
       + intros i Hi. specialize (Hfab i Hi). rewrite Efs in Hfab. cbn [armed_for] in *.
         rewrite aget_aset_other by keys.
@@ -660,7 +802,10 @@ Section Inv.
       assert (Hreload : forall r0, r_fabs (reload r0) = r_fabs r0 /\ r_basic (reload r0) = r_basic r0 /\
                                    r_labels (reload r0) = r_labels r0 /\ r_binds (reload r0) = r_binds r0 /\
                                    r_resump (reload r0) = r_resump r0 /\
-                                   cell_sync (aget (s_kv st) K_NETS) enc_nets nets_reset (r_nets (reload r0))).
+                                   cell_sync (aget (s_kv st) K_NETS) enc_nets nets_reset (r_nets (reload r0)) /\
+                                   (r_tz (reload r0) = r_tz r0 /\ r_tts (reload r0) = r_tts r0 /\
+                                    r_icd (reload r0) = r_icd r0 /\ r_ota (reload r0) = r_ota r0 /\
+                                    r_scenes (reload r0) = r_scenes r0)).
       { intros r0. unfold reload. destruct (i_nets_dec st HI) as [E|[n E]]; rewrite E.
         - repeat split. left. split; reflexivity.
         - rewrite rt_nets. repeat split. right. reflexivity. }
@@ -674,17 +819,14 @@ Section Inv.
                    | Some b => exists f, b = enc_fab i f /\ aget fabs' i = Some f
                    end) ->
                 Inv (mkState blob (reload (set_fabs (s_ram st) fabs')) Idle None (s_kv st))).
-      { intros fabs' H1 H2 H3 H4. destruct (Hreload (set_fabs (s_ram st) fabs')) as [R1 [R2 [R3 [R4 [R5 R6]]]]].
-        constructor; sstate; rewrite ?R1, ?R2, ?R3, ?R4; sstate; try assumption.
+      { intros fabs' H1 H2 H3 H4.
+        destruct (Hreload (set_fabs (s_ram st) fabs')) as [R1 [R2 [R3 [R4 [R5 [R6 [R7 [R8 [R9 [R10 R11]]]]]]]]]].
+        constructor; sstate; rewrite ?R1, ?R2, ?R3, ?R4, ?R7, ?R8, ?R9, ?R10, ?R11; sstate; try assumption;
+          try apply HI.
         - intros i Hi. specialize (H4 i Hi). destruct (aget (s_kv st) i).
           + destruct H4 as [f [E1 E2]]. exists f. split; [assumption|]. split; [apply amem_true; eauto|auto].
           + right. assumption.
-        - apply (i_basic st HI).
         - intros _. exact R6.
-        - apply (i_nets_dec st HI).
-        - apply (i_labels st HI).
-        - apply (i_binds st HI).
-        - apply (i_res st HI).
         - discriminate. }
       destruct (N.eqb_spec ctx 0) as [E0|E0].
       + (* PASE context, no fabric yet *)
@@ -756,17 +898,17 @@ Section Inv.
           cbn [fst snd] in H. sstate. exact H.
     - (* OResume *)
       destruct (amem (r_fabs (s_ram st)) f); [|exact HI]. sstate.
-      destruct HI as [Hnd0 Hrg Hcap Hfab Hbas Hnets Hnd2 Hlab Hbind Hres Hpase].
+      destruct HI as [Hnd0 Hrg Hcap Hfab Hbas Hnets Hnd2 Hlab Hbind Hres Htz Htts Hicd Hota Hsc Hpase].
       constructor; sstate; assumption.
     - (* OFlush *)
       sstate.
       replace (s_ram st) with (set_resump (s_ram st) (r_resump (s_ram st))) at 1 by (destruct (s_ram st); reflexivity).
-      apply inv_singletons; sstate; try reflexivity; try (intros; keys); try tauto; try assumption.
+      apply inv_singletons; single; try assumption.
       intros _. eexists. reflexivity.
     - (* OReset *)
       sstate. apply inv_reset. assumption.
     - (* OPase *)
-      sstate. destruct HI as [Hnd0 Hrg Hcap Hfab Hbas Hnets Hnd2 Hlab Hbind Hres Hpase].
+      sstate. destruct HI as [Hnd0 Hrg Hcap Hfab Hbas Hnets Hnd2 Hlab Hbind Hres Htz Htts Hicd Hota Hsc Hpase].
       constructor; sstate; try assumption. intros pf H1 H2. injection H1 as <-. congruence.
     - (* OCrash *)
       destruct (startup (s_kv st)) as [[r' ops]|] eqn:Es; [|exact HI]. sstate.
